@@ -3,9 +3,11 @@ package main
 import (
 	"context"
 	"fmt"
+	"strings"
 
 	apierrors "k8s.io/apimachinery/pkg/api/errors"
 	"k8s.io/apimachinery/pkg/runtime"
+	"k8s.io/apimachinery/pkg/runtime/schema"
 	"sigs.k8s.io/controller-runtime/pkg/client"
 )
 
@@ -37,7 +39,17 @@ type LogClient struct {
 // callFault counts one API call and says whether it is the one to fail.
 func (l *LogClient) callFault(what string) error {
 	l.Calls++
-	if l.FailCallN > 0 && l.Calls == l.FailCallN {
+	n := l.FailCallN
+	if n < 0 {
+		n = -n
+	}
+	if n > 0 && l.Calls == n {
+		// FailCallN < 0: a mutating call fails with a 409 Conflict (somebody else wrote the object in between) instead of
+		// an InternalError; reads always fail with an InternalError
+		if l.FailCallN < 0 && !strings.HasPrefix(what, "get ") && !strings.HasPrefix(what, "list ") {
+			l.FaultHit = "conflict:" + what
+			return apierrors.NewConflict(schema.GroupResource{Resource: "injected"}, what, fmt.Errorf("injected conflict at call %d", l.Calls))
+		}
 		l.FaultHit = what
 		return apierrors.NewInternalError(fmt.Errorf("injected fault at call %d (%s)", l.Calls, what))
 	}
